@@ -29,7 +29,7 @@ def sh(cmd, timeout, env=None, cwd=None):
 def confirm(sid, budget):
     d = os.path.join(SEEDED, sid)
     meta = json.load(open(os.path.join(d, 'meta.json')))
-    prop = meta['property']
+    prop = meta.get('check_property', meta['property'])      # (a few changes break a neighbouring property's clause: judged by that check)
     wt = tempfile.mkdtemp(prefix='wpull-conf-', dir='/dev/shm')
     os.rmdir(wt)
     out = {'when': time.strftime('%Y-%m-%dT%H:%M:%SZ', time.gmtime())}
